@@ -1,6 +1,8 @@
 ------------------------- MODULE TraceAutoconfCache -------------------------
 (* Phase T for C45.  The trace is produced by the crash-point enumeration on the real code:
-     Reset     : directory before the update (files, payload lengths, final names, version being fetched)
+     Reset     : directory before the update (files, payload lengths, final names, version being fetched;
+                 cs = the configured cache size, 0 = default -- informational: the property is the same
+                 for every cache size).  base := the validated versions on disk at this moment.
      Create/Write/Rename/Unlink : the write programme of the real update, as recorded by strace
      CrashRead : the result of a real GetCached() on the directory materialised at a crash point:
                  before the next step, or inside the next write after `plen` of its bytes
@@ -18,7 +20,7 @@ IsEvent(e) == l <= Len(Trace) /\ Trace[l].ev = e /\ l' = l + 1
 ToSet(s) == {s[i] : i \in 1..Len(s)}
 
 TInit == /\ l = 1 /\ files = [n \in {} |-> Absent] /\ full = <<>> /\ finals = {} /\ vnew = 0
-         /\ done = FALSE /\ prog = <<>> /\ pcw = 0
+         /\ done = FALSE /\ base = {} /\ prog = <<>> /\ pcw = 0
 
 TReset == /\ IsEvent("Reset")
           /\ full' = Ev.full /\ finals' = ToSet(Ev.finals) /\ vnew' = Ev.vnew /\ done' = FALSE
@@ -27,13 +29,14 @@ TReset == /\ IsEvent("Reset")
                          THEN LET i == CHOOSE i \in 1..Len(Ev.files) : Ev.files[i][1] = n
                               IN [ver |-> Ev.files[i][2], len |-> Ev.files[i][3]]
                          ELSE Absent]
+          /\ base' = ValidOnDiskIn(files)'      \* evaluated on the new directory, payload lengths and final names
           /\ UNCHANGED <<prog, pcw>>
-Frame == UNCHANGED <<full, finals, vnew, done, prog, pcw>>
+Frame == UNCHANGED <<full, finals, vnew, done, base, prog, pcw>>
 TCreate == IsEvent("Create") /\ ~done /\ FsCreate(Ev.name, Ev.trunc) /\ Frame
 TWrite  == IsEvent("Write") /\ ~done /\ FsWrite(Ev.name, Ev.ver, Ev.off, Ev.n) /\ Frame
 TRename == IsEvent("Rename") /\ ~done /\ FsRename(Ev.a, Ev.b) /\ Frame
 TUnlink == IsEvent("Unlink") /\ ~done /\ FsUnlink(Ev.name) /\ Frame
-TDone   == IsEvent("Done") /\ done' = TRUE /\ UNCHANGED <<files, full, finals, vnew, prog, pcw>>
+TDone   == IsEvent("Done") /\ done' = TRUE /\ UNCHANGED <<files, full, finals, vnew, base, prog, pcw>>
 \* crash state = current image, with the file of the write in progress cut at plen bytes
 CrashImage == IF Ev.pname = "" THEN files
               ELSE [files EXCEPT ![Ev.pname] = [ver |-> IF Ev.plen = 0 THEN @.ver ELSE Ev.pver, len |-> Ev.plen]]
